@@ -69,6 +69,11 @@ type HBObs struct {
 	Panic  string   `json:"panic,omitempty"`
 	Errs   [][]bool `json:"errs"` // per phase, per attempt: did it return an error
 	Final  HBState  `json:"final"`
+	// after the Initialize phase (all its attempts): is the release marker set, is the HPA (if any) detached, is the stable
+	// ReplicaSet (if any) held back by the maximal minReadySeconds
+	InitClaimed bool `json:"init_claimed"`
+	InitHPAOff  bool `json:"init_hpa_off"`
+	InitRSHeld  bool `json:"init_rs_held"`
 	Detail []string `json:"detail,omitempty"`
 }
 
@@ -242,6 +247,35 @@ func (handbackEngine) Run(inAny any) (res any) {
 		return errs
 	}
 	obs.Errs = append(obs.Errs, try(func() error { return plane().Initialize() }))
+	{
+		var annos map[string]string
+		if in.Kind == "deploy" {
+			d := &apps.Deployment{}
+			_ = base.Get(context.TODO(), key, d)
+			annos = d.Annotations
+		} else {
+			c := &kruiseappsv1alpha1.CloneSet{}
+			_ = base.Get(context.TODO(), key, c)
+			annos = c.Annotations
+		}
+		obs.InitClaimed = annos[util.BatchReleaseControlAnnotation] != ""
+		obs.InitHPAOff = true
+		if in.HPA != "" {
+			h := &unstructured.Unstructured{}
+			h.SetGroupVersionKind(hpaGVK)
+			if err := base.Get(context.TODO(), types.NamespacedName{Namespace: "ns", Name: "wl-hpa"}, h); err == nil {
+				t, _, _ := unstructured.NestedString(h.Object, "spec", "scaleTargetRef", "name")
+				obs.InitHPAOff = t != "wl"
+			}
+		}
+		obs.InitRSHeld = true
+		if in.Kind == "deploy" && in.StableRS {
+			rs := &apps.ReplicaSet{}
+			if err := base.Get(context.TODO(), types.NamespacedName{Namespace: "ns", Name: "wl-old"}, rs); err == nil {
+				obs.InitRSHeld = rs.Spec.MinReadySeconds == v1beta1.MaxReadySeconds
+			}
+		}
+	}
 	for i := 0; i < in.Upgrades; i++ {
 		release.Status.CanaryStatus.CurrentBatch = int32(i)
 		obs.Errs = append(obs.Errs, try(func() error { return plane().UpgradeBatch() }))
@@ -353,7 +387,8 @@ func (handbackEngine) Coq(inAny any, obsAny any) string {
 		fault = emit.Some(fmt.Sprintf("%d%%nat", in.FailPatch))
 	}
 	errs := emit.ListOf(obs.Errs, func(l []bool) string { return emit.ListOf(l, emit.Bool) })
-	return emit.App("Build_hbcase", kind, emit.Z(int64(in.N)), emit.Bool(in.Partitioned), "["+joinStr(phases, "; ")+"]", fault, w0, errs, wf, emit.Bool(obs.Panic != ""))
+	return emit.App("Build_hbcase", kind, emit.Z(int64(in.N)), emit.Bool(in.Partitioned), "["+joinStr(phases, "; ")+"]", fault, w0, errs, wf, emit.Bool(obs.Panic != ""),
+		emit.Bool(obs.InitClaimed), emit.Bool(obs.InitHPAOff), emit.Bool(obs.InitRSHeld))
 }
 
 func joinStr(l []string, sep string) string {
